@@ -26,7 +26,9 @@ CFG = {'long_max_vertices': 150,   # the exact oracle is quadratic in the vertex
                    "GeoProofs/Lemmas/RELMSym5.lean", "GeoProofs/Lemmas/RELMSym6.lean",
                    "GeoProofs/Lemmas/RELMEnds.lean", "GeoProofs/Lemmas/RELMEnds2.lean",
                    "GeoProofs/Lemmas/RELMTotal1.lean", "GeoProofs/Lemmas/RELMTotal2.lean", "GeoProofs/Lemmas/RELMTotal3.lean",
-                   "GeoProofs/Lemmas/RELMTotal4.lean", "GeoProofs/Lemmas/RELMTotal5.lean"],
+                   "GeoProofs/Lemmas/RELMTotal4.lean", "GeoProofs/Lemmas/RELMTotal5.lean",
+                   "GeoProofs/Lemmas/RELM2Node.lean", "GeoProofs/Lemmas/RELM2Areal.lean", "GeoProofs/Lemmas/RELM2Locate.lean",
+                   "GeoProofs/Lemmas/RELM2Linear.lean", "GeoProofs/Lemmas/RELM2Dom.lean", "GeoProofs/Lemmas/RELM2Disjoint.lean", "GeoProofs/Lemmas/RELM2Ring.lean"],
     "rule": "ordered pairs (A, B) over all 10 geometry types (Geometry enum on both sides) drawn from one shared 3..6 grid: polyomino polygons with "
             "holes (incl. holes tangent to the shell), star polygons, rectangles with holes, corner-touching multipolygons, self-avoiding lattice "
             "paths, multi line strings sharing end points (mod-2 rule), half-grid points, same-dimension collections; each case also relates the "
@@ -155,8 +157,27 @@ MANIFEST = {
             "(selfNoding_order_independent, selfNoded_edges_wellFormed, mutualPhase_order_independent). relate never panics: "
             "for all operands, valid or not, without a zero-length Line and with closed polygon rings (the geo-types invariant) the model reaches its end in exact "
             "arithmetic — none of 'node should have been labeled by now', the slice indexing of EdgeEndBuilder, 'can't create empty edge', 'found single null "
-            "side', 'found partial label' can happen (relateImpl_never_panics; hence relateImpl_transpose_closed for the total function). Not "
-            "proved: relateImpl = relateSpec on the validity domain in general (Line x Line and beyond).",
+            "side', 'found partial label' can happen (relateImpl_never_panics; hence relateImpl_transpose_closed for the total function). "
+            "(10) Point x B at the nodes of B's graph (RELM2): when p IS a node of B's self-noded graph the node map records the on position "
+            "of that node (relateImpl_point_rows_node, any B, any arithmetic); every intersection self-noding records on an edge becomes a node "
+            "(selfNoded_intersections_are_nodes); the nodes of the self-noded graph of an areal operand are OnBoundary and lie on its rings "
+            "(selfNoded_areal_nodes: ring starts, and recorded intersections as valid records of their edge; valid or not, exact arithmetic); a ring "
+            "point of a valid Polygon / MultiPolygon / any Rect / Triangle is located OnBoundary by the specification (locate_ring_point_areal, "
+            "MultiPolygon through C02 multiPolygon_members_apart); hence the nodes carry the specification's location for B a Point, MultiPoint, Line, "
+            "Polygon (holes touching the shell included), MultiPolygon (touching members included), Rect, Triangle of the domain "
+            "(impl_nodes_carry_locate), and rows Interior / Boundary of relate(Point p, B) = rows of the specification at EVERY p, nodes included, "
+            "with coordinate_position = locate from C02 coordPos_eq_locate_dom_partial (K9 exclusion vacuous for these types) "
+            "(relateImpl_point_rows_eq_spec_of_nodes, relateImpl_point_rows_eq_spec_dom_partial), and columns Interior / Boundary of relate(B, Point p) "
+            "through the two transpose laws (relateImpl_point_cols_eq_spec_dom_partial); on both paths of compute_intersection_matrix given DimsSpec of B "
+            "(relateImpl_point_rows_eq_spec_both_paths_partial); a closed LineString (a ring written as a line string, simple or not): no self-check, "
+            "nothing recorded, start vertex Inside by the mod-2 rule, rows = specification (relateImpl_point_rows_eq_spec_closedLineString). Open there: B an open LineString / MultiLineString / "
+            "GeometryCollection (self-noding of a simple line string records nothing; mod-2 node labels vs the specification's end point count; graph of "
+            "disjoint members), and the Exterior row / column. The disjoint-envelope shortcut on the whole validity domain, polygons with holes "
+            "included: 'hole coordinates in the reported rectangle' and 'rings closed' follow from validity (C02X dom_facts), so relateImpl = relateSpec "
+            "for domain operands with non-intersecting rectangles wherever HasDimensions agrees with the specification "
+            "(relateImpl_disjoint_eq_spec_dom_partial; remaining hypothesis DimsSpec: interior face sample of a valid polygon, collections). "
+            "Not proved: relateImpl = relateSpec for Line x Line, LineString x LineString and beyond (needs the full specification matrix of two "
+            "segments beyond the cell II and an order-independent evaluation of the node map / stars for symbolic coordinates).",
     "note": "Trusted: Lean kernel + audited axioms; the harness/generators (sampling); spec adequacy S1/S2. Defects found by this check and repaired in /repo: "
             "Triangle vertical edge (29720670), MultiPolygon shared vertex (5f41a6da), MultiLineString boundary_dimensions mod-2 (17c66966). The algorithm of "
             "relate is now modelled (relateImpl) and compared with the code on valid and invalid operands; K10 as seen from relate (subnormal coordinate: two "
